@@ -44,6 +44,15 @@ REG = {
         ],
         "trusted_base": ["std++ 1.8.0 gmap (axiom-free)", "modelled, not verified: net.Pipe delivery, math/big bit operations behind UserFlags.Set"],
     },
+    "C15": {
+        "assumptions": [
+            "logins are legal file names (non-empty, no '/', no NUL): the account file name is then an injective function of the login",
+            "passwords are at most 72 bytes (bcrypt's limit; longer ones are modelled as an unusable hash, as the code stores \"\")",
+            "bcrypt is abstracted to: verify (hash p) q <-> p = q; salts and collisions are not modelled",
+            "yaml.v3 round-trips the account fields (exercised through the real manager, incl. non-UTF-8 logins)",
+        ],
+        "trusted_base": ["std++ gmap", "modelled, not verified: bcrypt, yaml.v3, os file operations (create-exclusive, rename, remove) on one directory"],
+    },
     "C16": {
         "assumptions": [
             "YAML documents are modelled as key->bool association lists; yaml.v3 itself (struct marshalling in field order, mapping/sequence decoding) is exercised through the real account manager on every run, not verified",
